@@ -6,7 +6,7 @@ Local Open Scope N_scope.
 
 (* message-level operations on a reader fed by a frame list *)
 Inductive mop :=
-| OInt | OStr | OStrMax (cap : Z) | OSkip | OBytes (n : Z)
+| OInt | OStr | OStrMax (cap : Z) | OSkip | OBytes (n : Z) | ORemain
 | OAd (cap : Z) (parse_fail : option N)     (* GetClassAdWithMaxSize; cap 0 = GetClassAd *)
 | OAdRaw | OAdSkip
 | OIdStr (max_name : Z)
@@ -62,6 +62,7 @@ Definition run_op (enc : bool) (r : reader) (o : mop) : reader * mres (option by
   | OStrMax cap => valize (get_string_max enc cap r)
   | OSkip => unitize (skip_string enc r)
   | OBytes n => valize (get_bytes r n)
+  | ORemain => valize (get_remaining r)
   | OAd cap pf => unitize (get_classad (parse_oracle pf) enc cap r)
   | OAdRaw => unitize (get_classad_raw enc r)
   | OAdSkip => unitize (skip_classad_raw enc r)
